@@ -394,32 +394,46 @@ package pipeline
 
 //@ func (*MatrixAdjustment).interpolate
 //@   requires tf != nil
-//@   assigns *ma.With, @GENERIC
+//@   assigns *ma.With, ma.Skip, @GENERIC
 //@   ensures [nil] ma == nil ==> ret == nil
+//@   ensures [skip-reason] ret == nil && ma != nil && old(typeis(ma.Skip, string)) ==> ma.Skip == box(string, tfT(tf, old(unbox(ma.Skip, string))))
+//@   ensures [skip-other] ma != nil && !old(typeis(ma.Skip, string)) ==> ma.Skip == old(ma.Skip)
+//@   note [skip-reason] a skip reason is a string of the pipeline like any other (C04: cache settings and matrix adjustments are interpolated)
+
+//@ func (*Cache).interpolate
+//@   requires tf != nil
+//@   assigns c.Name, c.Size, c.Paths[..], @GENERIC
+//@   ensures [nil] c == nil ==> ret == nil
+//@   ensures [ok]  ret == nil && c != nil ==> c.Name == tfT(tf, old(c.Name)) && c.Size == tfT(tf, old(c.Size)) &&
+//@       (forall i int :: {c.Paths[i]} 0 <= i && i < len(c.Paths) ==> c.Paths[i] == tfT(tf, old(c.Paths[i])))
+//@   ensures [err] c != nil && (!tfOK(tf, old(c.Name)) || (exists i int :: {c.Paths[i]} 0 <= i && i < len(c.Paths) && !tfOK(tf, old(c.Paths[i])))) ==> ret != nil
+//@   ensures [same] c != nil ==> c.Paths == old(c.Paths) && c.Disabled == old(c.Disabled) && c.RemainingFields == old(c.RemainingFields)
 
 //@ func interpolateAny[*pipeline.MatrixAdjustment]
 //@   requires tf != nil
-//@   assigns all(map[string]string), @GENERIC
+//@   assigns all(map[string]string), all(*MatrixAdjustment), @GENERIC
 //@   ensures [same] ret0 == o
 
 //@ func interpolateSlice[*pipeline.MatrixAdjustment,pipeline.MatrixAdjustments]
 //@   requires tf != nil
-//@   assigns all(map[string]string), @GENERIC
+//@   assigns all(map[string]string), all(*MatrixAdjustment), @GENERIC
 //@   loop 0
-//@     assigns all(map[string]string), @GENERIC
+//@     assigns all(map[string]string), all(*MatrixAdjustment), @GENERIC
 //@     invariant [idx] 0 <= $idx && $idx <= len(s)
 //@     invariant [same] forall i int :: {s[i]} 0 <= i && i < len(s) ==> s[i] == old(s[i])
 //@     decreases len(s) - $idx
 
 //@ func (*Matrix).interpolate
 //@   requires tf != nil
-//@   assigns @GENERIC, all(map[string][]string), all([]string), all(map[string]string)
+//@   assigns @GENERIC, all(map[string][]string), all([]string), all(map[string]string), all(*MatrixAdjustment)
 //@   ensures [nil] m == nil ==> ret == nil
 //@   check [matrix-mode] typeis(tf, matrixInterpolator) ==> ret == nil && unchanged()
 
 //@ func (*CommandStep).interpolate
 //@   requires c != nil && tf != nil && pluginsWF(c)
-//@   assigns c.Command, c.Label, c.Key, all(*Plugin), all(map[string][]string), all([]string), all(map[string]string), @GENERIC
+//@   assigns c.Command, c.Label, c.Key, all(*Plugin), all(*Cache), all(*MatrixAdjustment), all(map[string][]string), all([]string), all(map[string]string), @GENERIC
+//@   ensures [cache-env] ret == nil && typeis(tf, envInterpolator) && c.Cache != nil ==> c.Cache.Name == tfT(tf, old(c.Cache.Name)) && c.Cache.Size == tfT(tf, old(c.Cache.Size))
+//@   ensures [cache-matrix] typeis(tf, matrixInterpolator) && c.Cache != nil ==> c.Cache.Name == old(c.Cache.Name) && c.Cache.Size == old(c.Cache.Size)
 //@   ensures [scalars] ret == nil ==> c.Command == tfT(tf, old(c.Command)) && c.Label == tfT(tf, old(c.Label))
 //@   ensures [plugins] ret == nil ==> (forall i int :: {c.Plugins[i]} 0 <= i && i < len(c.Plugins) ==> c.Plugins[i].Source == tfT(tf, old(c.Plugins[i].Source)))
 //@   ensures [key-env] ret == nil && typeis(tf, envInterpolator) ==> c.Key == tfT(tf, old(c.Key))
@@ -432,7 +446,7 @@ package pipeline
 //@   ensures [matrix-def-matrix] typeis(tf, matrixInterpolator) ==> (forall d string :: {has(c.Matrix.Setup, d)} has(c.Matrix.Setup, d) == old(has(c.Matrix.Setup, d)) && c.Matrix.Setup[d] == old(c.Matrix.Setup[d]))
 //@   ensures [untouched] c.Signature == old(c.Signature) && c.Matrix == old(c.Matrix) && c.Cache == old(c.Cache) && c.Plugins == old(c.Plugins) && c.Env == old(c.Env) && c.RemainingFields == old(c.RemainingFields)
 
-//@ frame STEPS := all([]Step), all(*CommandStep), all(*GroupStep), all(*WaitStep), all(*UnknownStep), all(*Plugin), all(map[string][]string), all([]string), all(map[string]string), all(*string), @GENERIC
+//@ frame STEPS := all([]Step), all(*CommandStep), all(*GroupStep), all(*WaitStep), all(*UnknownStep), all(*Plugin), all(*Cache), all(*MatrixAdjustment), all(map[string][]string), all([]string), all(map[string]string), all(*string), @GENERIC
 
 //@ func (selfInterpolater).interpolate
 //@   requires arg0 != nil
